@@ -74,28 +74,28 @@ harnesses! {
     #[kani::solver(kissat)] #[kani::stub(crate::arithmetic::fast_two_sum, s_fts)] #[kani::stub(TwoFloat::new_add, s_new_add)] #[kani::stub(TwoFloat::new_sub, s_new_sub)]
     fn valid_sub_assign_tf() { add_valid_case(9) }
 
-    #[kani::solver(kissat)] #[kani::stub(crate::arithmetic::fast_two_sum, s_fts)] #[kani::stub(TwoFloat::new_mul, s_new_mul)]
+    #[kani::solver(kissat)] #[kani::stub(crate::arithmetic::fast_two_sum, s_fts)] #[kani::stub(TwoFloat::new_mul, s_new_mul)] #[kani::stub(crate::arithmetic::fma, fma_fixed)]
     fn valid_mul_tf_f64() { mul_valid_case(0) }
-    #[kani::solver(kissat)] #[kani::stub(crate::arithmetic::fast_two_sum, s_fts)] #[kani::stub(TwoFloat::new_mul, s_new_mul)]
+    #[kani::solver(kissat)] #[kani::stub(crate::arithmetic::fast_two_sum, s_fts)] #[kani::stub(TwoFloat::new_mul, s_new_mul)] #[kani::stub(crate::arithmetic::fma, fma_fixed)]
     fn valid_mul_f64_tf() { mul_valid_case(1) }
-    #[kani::solver(kissat)] #[kani::stub(crate::arithmetic::fast_two_sum, s_fts)] #[kani::stub(TwoFloat::new_mul, s_new_mul)]
+    #[kani::solver(kissat)] #[kani::stub(crate::arithmetic::fast_two_sum, s_fts)] #[kani::stub(TwoFloat::new_mul, s_new_mul)] #[kani::stub(crate::arithmetic::fma, fma_fixed)]
     fn valid_mul_assign_f64() { mul_valid_case(2) }
-    #[kani::solver(kissat)] #[kani::stub(crate::arithmetic::fast_two_sum, s_fts)] #[kani::stub(TwoFloat::new_mul, s_new_mul)]
+    #[kani::solver(kissat)] #[kani::stub(crate::arithmetic::fast_two_sum, s_fts)] #[kani::stub(TwoFloat::new_mul, s_new_mul)] #[kani::stub(crate::arithmetic::fma, fma_fixed)]
     fn valid_mul_tf_tf() { mul_valid_case(3) }
-    #[kani::solver(kissat)] #[kani::stub(crate::arithmetic::fast_two_sum, s_fts)] #[kani::stub(TwoFloat::new_mul, s_new_mul)]
+    #[kani::solver(kissat)] #[kani::stub(crate::arithmetic::fast_two_sum, s_fts)] #[kani::stub(TwoFloat::new_mul, s_new_mul)] #[kani::stub(crate::arithmetic::fma, fma_fixed)]
     fn valid_mul_assign_tf() { mul_valid_case(4) }
-    #[kani::solver(kissat)] #[kani::stub(crate::arithmetic::fast_two_sum, s_fts)] #[kani::stub(TwoFloat::new_mul, s_new_mul)]
+    #[kani::solver(kissat)] #[kani::stub(crate::arithmetic::fast_two_sum, s_fts)] #[kani::stub(TwoFloat::new_mul, s_new_mul)] #[kani::stub(crate::arithmetic::fma, fma_fixed)]
     fn valid_to_degrees() { mul_valid_case(5) }
-    #[kani::solver(kissat)] #[kani::stub(crate::arithmetic::fast_two_sum, s_fts)] #[kani::stub(TwoFloat::new_mul, s_new_mul)]
+    #[kani::solver(kissat)] #[kani::stub(crate::arithmetic::fast_two_sum, s_fts)] #[kani::stub(TwoFloat::new_mul, s_new_mul)] #[kani::stub(crate::arithmetic::fma, fma_fixed)]
     fn valid_to_radians() { mul_valid_case(6) }
 
-    #[kani::solver(kissat)] #[kani::stub(crate::arithmetic::fast_two_sum, s_fts)] #[kani::stub(TwoFloat::new_mul, s_new_mul)]
+    #[kani::solver(kissat)] #[kani::stub(crate::arithmetic::fast_two_sum, s_fts)] #[kani::stub(TwoFloat::new_mul, s_new_mul)] #[kani::stub(crate::arithmetic::fma, fma_fixed)]
     fn valid_div_tf_f64() { div_valid_case(0) }
-    #[kani::solver(kissat)] #[kani::stub(crate::arithmetic::fast_two_sum, s_fts)] #[kani::stub(TwoFloat::new_mul, s_new_mul)]
+    #[kani::solver(kissat)] #[kani::stub(crate::arithmetic::fast_two_sum, s_fts)] #[kani::stub(TwoFloat::new_mul, s_new_mul)] #[kani::stub(crate::arithmetic::fma, fma_fixed)]
     fn valid_div_assign_f64() { div_valid_case(1) }
 
     /// new_div in the domain of C02 (2^-480 <= |a|,|b| <= 2^480)
-    #[kani::solver(kissat)] #[kani::stub(crate::arithmetic::fast_two_sum, s_fts)] #[kani::stub(TwoFloat::new_mul, s_new_mul)]
+    #[kani::solver(kissat)] #[kani::stub(crate::arithmetic::fast_two_sum, s_fts)] #[kani::stub(TwoFloat::new_mul, s_new_mul)] #[kani::stub(crate::arithmetic::fma, fma_fixed)]
     fn valid_new_div() {
         let a = any_f64!(); let b = any_f64!();
         vassume!(a.abs() >= 3.2e-145 && a.abs() <= 3.1e144 && b.abs() >= 3.2e-145 && b.abs() <= 3.1e144);
